@@ -127,7 +127,8 @@ def pytype(v):
     if isinstance(v, SOpaque):
         return {'decimal': decimal.Decimal, 'datetime_naive': datetime.datetime,
                 'datetime_aware': datetime.datetime, 'struct_time': time.struct_time,
-                'dict': dict, 'list': list, 'tuple': tuple, 'foreign': _Foreign,
+                'dict': dict, 'list': list, 'tuple': tuple, 'foreign': _Foreign, 'datetime_local': datetime.datetime,
+                'tzinfo': datetime.tzinfo, 'timedelta': datetime.timedelta,
                 'joinlist': list}.get(v.kind, _Foreign)
     return type(v)
 
@@ -487,7 +488,7 @@ class Interp:
         return tuple(self.eval(x, fr) for x in e.elts)
 
     def expr_List(self, e, fr):
-        return [self.eval(x, fr) for x in e.elts]
+        return self.st.allocated([self.eval(x, fr) for x in e.elts])
 
     def expr_Dict(self, e, fr):
         d = {}
@@ -498,7 +499,7 @@ class Interp:
             if sym.is_symbolic(kk):
                 raise OutOfSubset('symbolic dict key in display')
             d[kk] = self.eval(v, fr)
-        return d
+        return self.st.allocated(d)
 
     def expr_Attribute(self, e, fr):
         return self.getattr(self.eval(e.value, fr), e.attr)
@@ -538,7 +539,7 @@ class Interp:
             self.assign(g.target, x, sub)
             if all(self.st.truth(self.eval(c, sub), 'comp-if') for c in g.ifs):
                 out.append(self.eval(e.elt, sub))
-        return out
+        return self.st.allocated(out)
 
     def expr_BoolOp(self, e, fr):
         is_and = isinstance(e.op, ast.And)
@@ -841,6 +842,10 @@ class Interp:
         raise OutOfSubset('subscript of %s' % type(obj).__name__)
 
     def setitem(self, obj, key, v):
+        if isinstance(obj, (dict, list)) and id(obj) not in self.st.fresh_ids:
+            # an object that existed before this call (module level, class level or a default argument)
+            self.st.writes.append((type(obj).__name__, 'module', 'setitem'))
+            raise OutOfSubset('item store into a pre-existing %s (shared state)' % type(obj).__name__)
         if isinstance(obj, dict) and not sym.is_symbolic(key):
             self.note_write(obj, 'setitem')
             obj[key] = v
